@@ -20,12 +20,15 @@ CONSTANTS
   MaxStep = 5
   Strict = %(strict)s
   RefuseMemfdDowngrade = %(refuse)s
+  TimeoutStopsGoroutine = %(stops)s
 INVARIANTS """ + INVARIANTS + """
 PROPERTY Termination
 CHECK_DEADLOCK FALSE
 """
 # set to True together with the repair of finding memfd-downgrade-sends-paths (see handshake_NOTES.md)
 REFUSE_MEMFD_DOWNGRADE = False
+# set to True together with the repair of finding late-goroutine-after-timeout
+TIMEOUT_STOPS_GOROUTINE = False
 CFG_KEYS = ['map', 'cproto', 'sgen', 'tr', 'fside', 'fstep', 'fkind']
 TIMEOUT_MS = 1500
 LATE_TIMEOUT_MS = 300
@@ -299,7 +302,8 @@ def run_scenarios(scs, workers, timeout):
 
 def model_check(strict):
     return tlc.dump_graph('Handshake', 'mc.cfg', timeout=600, workers=4,
-                          extra_files={'mc.cfg': CFG_TMPL % dict(strict='TRUE' if strict else 'FALSE', refuse='TRUE' if REFUSE_MEMFD_DOWNGRADE else 'FALSE')})
+                          extra_files={'mc.cfg': CFG_TMPL % dict(strict='TRUE' if strict else 'FALSE', refuse='TRUE' if REFUSE_MEMFD_DOWNGRADE else 'FALSE',
+                                                               stops='TRUE' if TIMEOUT_STOPS_GOROUTINE else 'FALSE')})
 
 
 def run(prop, tier, seed, replay=None):
@@ -309,11 +313,11 @@ def run(prop, tier, seed, replay=None):
     ck.assumptions += [
         'bounded exhaustiveness: all pairings {file,memfd} x {protocol 2,3} x {current, v2-strict, v2-exchanging server}'
         ' x {unix,tcp} x {no fault, either side stalls/closes before each of its IO operations, optionally after a '
-        'truncated message}; one fault per run',
+        'truncated message, or pauses there until the other end has timed out and then goes on}; one fault per run',
         'server generations older than the tree and the (file, protocol 3) client are scripted emulations (no such code '
         'in the tree); (memfd, protocol 2) does not exist',
-        'the time-out arm is modelled as firing only when no message can arrive any more; a peer that answers late (after '
-        'the time-out) is not modelled',
+        'the time-out arm is modelled as firing only when no message can arrive any more; a peer that pauses longer than the '
+        'time-out and then goes on is fault kind "late" (executed one at a time, after the other scenarios)',
         'the duplicated socket descriptor of a failed end is closed by the os.File finaliser: the census runs after forced '
         'garbage collections',
         'real client and real server run in one process: the server end then finds the client\'s buffer manager in the '
@@ -339,7 +343,8 @@ def run(prop, tier, seed, replay=None):
     ck.cov['scenarios_in_spec'] = len(terms)
     ck.cov['terminal_states'] = sum(len(v) for v in terms.values())
     # the same design without the exemption: TLC's counterexample is the lead the known classes come from
-    sres = tlc.run('Handshake', 'mc.cfg', timeout=300, workers=2, extra_files={'mc.cfg': CFG_TMPL % dict(strict='TRUE', refuse='TRUE' if REFUSE_MEMFD_DOWNGRADE else 'FALSE')})
+    sres = tlc.run('Handshake', 'mc.cfg', timeout=300, workers=2, extra_files={'mc.cfg': CFG_TMPL % dict(strict='TRUE', refuse='TRUE' if REFUSE_MEMFD_DOWNGRADE else 'FALSE',
+                                                               stops='TRUE' if TIMEOUT_STOPS_GOROUTINE else 'FALSE')})
     if sres.violation:
         lead = sres.trace[0][1].get('cfg') if sres.trace else None
         ck.cov['strict_design_check'] = 'without the exemption TLC reports %s violated, e.g. scenario %s ' \
